@@ -66,6 +66,14 @@ def rec_card(S, name, cvr):
     return cvr
 
 
+def test_config(S, I, asn, con, tag):
+    """the assertion's test is the one the null hypothesis 'assorter mean <= 1/2 over the contest's cards' needs"""
+    t = asn.attrs["test"]
+    S.holds(f"{tag} the test's null mean is 1/2", bterm(I.equal(t.attrs["t"], HALF)))
+    S.holds(f"{tag} the test's population size is the contest's card bound", bterm(I.equal(t.attrs["N"], con.attrs["cards"])))
+    S.holds(f"{tag} the test assumes the sample is in random order", I.truth_term(t.attrs["random_order"]))
+
+
 # ------------------------------------------------------------------ C02: plurality assorter
 
 @script(["C02", "C06"], "Assertion.make_plurality_assertions/assorters")
@@ -94,6 +102,7 @@ def plurality_assorters(S, I, variant):
             S.holds(f"[{w} v {l}] 0 <= assort <= upper_bound = 1", band(xcmp(">=", v, ZERO), xcmp("<=", v, a.attrs["upper_bound"]),
                                                                        bterm(I.equal(a.attrs["upper_bound"], 1))))
             S.holds(f"[{w} v {l}] test.u = assorter bound", bterm(I.equal(asn.attrs["test"].attrs["u"], a.attrs["upper_bound"])))
+            test_config(S, I, asn, con, f"[{w} v {l}]")
             S.holds(f"[{w} v {l}] card lacking the contest scores 1/2", bimp(bnot(has_contest(card, "con")), xsame(v, HALF)))
 
 
@@ -153,6 +162,7 @@ def supermajority_assorter(S, I, variant):
     S.eq("assort(card) = w/(2f) if exactly one mark among the candidates else 1/2", v, spec)
     S.eq("upper_bound = 1/(2f)", a.attrs["upper_bound"], ub)
     S.eq("test.u = 1/(2f)", asn.attrs["test"].attrs["u"], ub)
+    test_config(S, I, asn, con, "[supermajority]")
     S.holds("0 <= assort <= upper_bound", band(xcmp(">=", v, ZERO), xcmp("<=", v, ub)))
     S.holds("1/2 <= upper_bound", xcmp("<=", HALF, ub))
     S.holds("card lacking the contest scores 1/2", bimp(bnot(has_contest(card, "con")), xsame(v, HALF)))
